@@ -928,6 +928,10 @@ def run(prog, rep, tier):
              'are complete: nothing that can raise is reachable after the key store')
     if check_cache_key_order(prog, rep) < 2:
         raise AnalysisError('CACHE-key-after-value: memo guards of calc_U not found')
+    rep.rule('CACHE-invalidate', 'derived data are dropped whenever their source may have changed '
+             '(force_prepare_evolve after update_time_parameter; env.clear() with the basis expansion)')
+    if check_cache_invalidate(prog, rep) < 2:
+        raise AnalysisError('CACHE-invalidate: reinit_model / prepare_evolve not recognised')
     rep.rule('TROTTER-order', 'order conditions of the fourth-order Suzuki scheme on the folded literals')
     check_trotter_order(prog, rep)
     return rep.finish(
@@ -1081,4 +1085,81 @@ def check_cache_key_order(prog, rep):
                                   'guard `%s == %s` then skips the rebuild on the next call and the '
                                   'previous gates are used with the new parameters'
                                   % (key, local, key_text(bad)[:60], key, local), st.lineno)
+    return n
+
+
+# ------------------------------------------------------------------ CACHE-invalidate
+def _must_follow(cfg, stmt, pred):
+    """every normal path from `stmt` to the exit passes a node satisfying pred"""
+    todo = [x for nd in cfg.nodes_of(stmt) for x in cfg.normal_succ(nd)]
+    seen = set()
+    while todo:
+        x = todo.pop()
+        if x.id in seen:
+            continue
+        seen.add(x.id)
+        if x.stmt is not None and not isinstance(x.stmt, (ast.If, ast.For, ast.While, ast.Try,
+                                                          ast.With)) and pred(x.stmt):
+            continue
+        if x is cfg.exit:
+            return False
+        todo.extend(cfg.normal_succ(x))
+    return True
+
+
+def check_cache_invalidate(prog, rep):
+    """CACHE-invalidate: data derived from the state / the model must be dropped whenever the thing
+    it was derived from MAY have changed, not only when a cheap comparison notices a change.
+    (a) TimeDependentHAlgorithm.reinit_model: `update_time_parameter` is documented as potentially
+        in-place (may return the same object with a new H), so after calling it every path sets
+        `self.force_prepare_evolve = True` (the cached gates are keyed by dt / order only).
+    (b) TDVPEngine.prepare_evolve: the Krylov basis expansion re-gauges every tensor of psi even
+        when no bond grows, so on every path through the expansion branch `self.env.clear()` runs
+        (before or after it)."""
+    from ..cfg import CFG
+    n = 0
+    m = prog.module('tenpy/algorithms/algorithm.py')
+    f = m.func('TimeDependentHAlgorithm.reinit_model')
+    cfg = CFG(f)
+    calls = [st for st in stmts_of(f) if not isinstance(st, (ast.If, ast.For, ast.While)) and any(
+        isinstance(c, ast.Call) and isinstance(c.func, ast.Attribute) and
+        c.func.attr == 'update_time_parameter' for c in ast.walk(st))]
+    if not calls:
+        raise AnalysisError('reinit_model: call of update_time_parameter not found')
+    for st in calls:
+        n += 1
+        ok = _must_follow(cfg, st, lambda s: isinstance(s, ast.Assign) and any(
+            unparse(t) == 'self.force_prepare_evolve' for t in s.targets) and isinstance(
+                s.value, ast.Constant) and s.value.value is True) or (
+                    isinstance(st, ast.Assign) and False)
+        rep.instance('CACHE-invalidate', {'function': 'TimeDependentHAlgorithm.reinit_model',
+                                          'after': key_text(st)[:60], 'flag_on_every_path': ok})
+        if not ok:
+            rep.violation('CACHE-invalidate', m, 'TimeDependentHAlgorithm.reinit_model',
+                          'conditional-invalidate:force_prepare_evolve',
+                          'after `%s` a path leaves reinit_model without '
+                          '`self.force_prepare_evolve = True`: a model that updates its H in place '
+                          'and returns itself keeps the gates of the old time (exp(-i H(t0) dt) is '
+                          'applied at every step)' % key_text(st)[:60], st.lineno)
+    m2 = prog.module('tenpy/algorithms/tdvp.py')
+    f2 = m2.func('TDVPEngine.prepare_evolve')
+    for br in ast.walk(f2):
+        if not (isinstance(br, ast.If) and any(
+                isinstance(c, ast.Call) and isinstance(c.func, ast.Attribute) and
+                c.func.attr == 'subspace_expansion' for c in ast.walk(br))):
+            continue
+        n += 1
+        ok = any(isinstance(st, ast.Expr) and isinstance(st.value, ast.Call) and
+                 unparse(st.value.func) == 'self.env.clear' for st in br.body)
+        rep.instance('CACHE-invalidate', {'function': 'TDVPEngine.prepare_evolve',
+                                          'branch': unparse(br.test)[:50],
+                                          'env_cleared_unconditionally': ok})
+        if not ok:
+            rep.violation('CACHE-invalidate', m2, 'TDVPEngine.prepare_evolve',
+                          'conditional-invalidate:env',
+                          'the branch `%s` changes psi through subspace_expansion (which re-gauges '
+                          'all tensors even when no bond grows) but `self.env.clear()` is not an '
+                          'unconditional statement of that branch: the next sweep uses stale '
+                          'environments that still fit' % unparse(br.test)[:50], br.lineno)
+        break
     return n
